@@ -357,7 +357,7 @@ func c16Names(w *World, r *Report) {
 		r.Bad("C16/NAMES", "file-name", w.Pos(fn.Pos()), "no BufferedFile is built from the archive entries")
 		return
 	}
-	n := nameStore.Val
+	n := g.resolveAt(nameStore.Val, posOf(nameStore))
 	// n must be the result of path.Clean
 	cleaned := false
 	if c, ok := n.(*ssa.Call); ok {
@@ -605,37 +605,24 @@ func c16Limits(w *World, r *Report) {
 	r.Check(dec, "C16/LIMITS", "budget-decreases", w.InstrPos(limitCall), "the limit is the remaining budget, a loop-carried value decreased by the bytes copied", "the limit given to the reader is not a loop-carried budget decreased by the bytes copied: the total size limit never tightens")
 	// declared size checks dominate the copy: hd.Size > budget, hd.Size > MaxDecompressedFileSize (reject on true)
 	sizeChecks := func(f *ssa.Function, bud ssa.Value) (passBudget, passFile []Edge) {
-		for _, b := range f.Blocks {
-			for _, in := range b.Instrs {
-				bo, ok := in.(*ssa.BinOp)
-				if !ok || bo.Op != token.GTR {
-					continue
-				}
-				ld, ok := bo.X.(*ssa.UnOp)
-				if !ok {
-					continue
-				}
-				if _, t, fld := fieldNameOf(ld.X); t != "Header" || fld != "Size" {
-					continue
-				}
-				isFileLimit := false
-				if y, ok := bo.Y.(*ssa.UnOp); ok {
-					if gl, ok := y.X.(*ssa.Global); ok && gl.Name() == "MaxDecompressedFileSize" {
-						isFileLimit = true
-					}
-				}
-				for _, e := range condEdges(bo) {
-					if e.truth {
-						continue
-					}
-					if bo.Y == bud {
-						passBudget = append(passBudget, e.Edge)
-					} else if isFileLimit {
-						passFile = append(passFile, e.Edge)
-					}
+		isDeclared := func(v ssa.Value) bool {
+			ld, ok := v.(*ssa.UnOp)
+			if !ok {
+				return false
+			}
+			_, t, fld := fieldNameOf(ld.X)
+			return t == "Header" && fld == "Size"
+		}
+		isFileLimit := func(v ssa.Value) bool {
+			if y, ok := v.(*ssa.UnOp); ok {
+				if gl, ok := y.X.(*ssa.Global); ok && gl.Name() == "MaxDecompressedFileSize" {
+					return true
 				}
 			}
+			return false
 		}
+		passBudget = withinEdges(f, isDeclared, func(v ssa.Value) bool { return v == bud })
+		passFile = withinEdges(f, isDeclared, isFileLimit)
 		return
 	}
 	pb, pf := sizeChecks(host, budget)
@@ -655,7 +642,7 @@ func c16Limits(w *World, r *Report) {
 	over := false
 	for _, b := range host.Blocks {
 		for _, in := range b.Instrs {
-			if bo, ok := in.(*ssa.BinOp); ok && (bo.Op == token.LSS || bo.Op == token.LEQ) && (derivesFromValue(bo.X, copyCall)) {
+			if bo, ok := in.(*ssa.BinOp); ok && isOrdering(bo.Op) && (derivesFromValue(bo.X, copyCall) || derivesFromValue(bo.Y, copyCall)) {
 				over = true
 			}
 		}
@@ -676,20 +663,10 @@ func c16Limits(w *World, r *Report) {
 				continue
 			}
 			nDir++
-			var pass []Edge
-			for _, b := range f.Blocks {
-				for _, in := range b.Instrs {
-					if bo, ok := in.(*ssa.BinOp); ok && bo.Op == token.GTR {
-						if cc, ok := bo.X.(*ssa.Call); ok && cc.Call.IsInvoke() && cc.Call.Method.Name() == "Size" {
-							for _, e := range condEdges(bo) {
-								if !e.truth {
-									pass = append(pass, e.Edge)
-								}
-							}
-						}
-					}
-				}
-			}
+			pass := withinEdges(f, func(v ssa.Value) bool {
+				cc, ok := v.(*ssa.Call)
+				return ok && cc.Call.IsInvoke() && cc.Call.Method.Name() == "Size"
+			}, func(ssa.Value) bool { return true })
 			if ex, _ := fg.PathExists(entryPos(f), posOf(c), Avoid{}.withEdges(pass...)); ex || len(pass) == 0 {
 				okDir = false
 			}
